@@ -799,7 +799,8 @@ def sdss2eq(clambda_in, ceta_in, dtype="f8"):
     z = sin(ceta + _sdsspar["etapole"]) * cos(clambda)
 
     ra = arctan2(y, x) + _sdsspar["node"]
-    dec = arcsin(z)
+    # more precise than arcsin(z) next to the poles
+    dec = arctan2(z, np.hypot(x, y))
 
     ra *= R2D
     dec *= R2D
